@@ -2,7 +2,6 @@ import sys
 
 import functools
 from itertools import zip_longest
-import operator
 import typing as t
 from threading import RLock
 from typing_extensions import ParamSpec
@@ -88,7 +87,7 @@ def collect_typevars(args: t.Any) -> t.Tuple[t.Union[t.TypeVar, ParamSpec], ...]
 
 
 def type_union(types: t.Iterable[type]) -> type:
-    return functools.reduce(operator.or_, types)
+    return t.cast(type, t.Union[tuple(types)])  # typing.Union, which make_converter understands (``int | str`` is a types.UnionType)
 
 
 def flatten_union_args(types: t.Iterable[T]) -> t.Iterator[T]:
